@@ -120,6 +120,7 @@ class World:
         self.fns = {n: ctx.syn.fn("Ty::" + n, TY) for n in ("can_fit_into", "can_cast_to", "is_weak_replaceable_by", "max", "might_be_weak",
                                                            "is_functionally_equivalent_to", "has_semantics_of", "is_zero_sized")}
         self.oracle = oracle or {}
+        self._syn, self._others = ctx.syn, {}
         self.depth = 0
         self.fork_relations = False
 
@@ -163,6 +164,8 @@ class World:
             it.world = self
             it.methods["absolute_ty"] = lambda i, r, a: self.absolute(r)
             it.methods["into"] = lambda i, r, a: r
+            # any other predicate of Ty applied to a concrete type is run from its own source
+            it.method_resolver = self.ty_method
             names = f.param_names()
             env = {"self": recv}
             for n, a in zip(names[1:], args):
@@ -170,6 +173,14 @@ class World:
             return it.run_fn(f, env)
         finally:
             self.depth -= 1
+
+    def ty_method(self, recv, m):
+        if not (isinstance(recv, Variant) and recv.path.startswith("Ty::")) or m in self.fns or m in ("clone", "into", "as_ref", "absolute_ty"):
+            return None
+        if m not in self._others:
+            c = [f for f in self._syn.fns_in(TY) if f.qual == "Ty::" + m and f.body is not None and not f.in_test]
+            self._others[m] = c[0] if len(c) == 1 else None
+        return self._others[m]
 
     def absolute(self, v):
         while isinstance(v, Variant) and v.last in ("Distinct", "EnumVariant"):
